@@ -660,6 +660,20 @@ func runRespCase(c respCase) (obs respObs) {
 	obs.Wedged = wedged
 	obs.State, obs.Task = "gone", "none"
 	if !wedged {
+		// the follow-up request's worker may still be on its way to reporting its task finished (its completed listener fires
+		// when the final message is sent): the snapshot is taken once the follow-up has left the task queue
+		for t := time.Now(); time.Since(t) < time.Second; time.Sleep(2 * time.Millisecond) {
+			tq := gsS.PeerState(pP).IncomingState.TaskQueueState
+			busy := false
+			for _, id := range append(append([]graphsync.RequestID{}, tq.Active...), tq.Pending...) {
+				if id == followID {
+					busy = true
+				}
+			}
+			if !busy {
+				break
+			}
+		}
 		ps := gsS.PeerState(pP).IncomingState
 		if st, ok := ps.RequestStates[reqID]; ok {
 			obs.State = st.String()
@@ -677,7 +691,12 @@ func runRespCase(c respCase) (obs respObs) {
 		for _, ds := range ps.Diagnostics() {
 			obs.Diag = append(obs.Diag, ds...)
 		}
+		// (a completed listener fires when the final message is sent, which can be before the worker has reported its task
+		//  finished: give the queue's counters the time to reach their resting values)
 		st := gsS.Stats()
+		for t := time.Now(); (st.IncomingRequests.Active != 0 || st.IncomingRequests.Pending != 0) && time.Since(t) < time.Second; time.Sleep(2 * time.Millisecond) {
+			st = gsS.Stats()
+		}
 		obs.ActiveStats, obs.PendingStats, obs.AllocTotal = st.IncomingRequests.Active, st.IncomingRequests.Pending, st.OutgoingResponses.TotalAllocatedAllPeers
 	}
 	mu.Lock()
